@@ -222,6 +222,14 @@ def scenarios(ctx, thorough):
             for rd in (300, 900):          # grace period 90 ms / 810 ms: far beyond any scheduling hiccup (40 us would give 1.6 ms)
                 for rep in range(4 if thorough else 3):
                     scns.append({"driver": drv, "state": st, "closes": 1 + rep % 2, "closebeh": "eof", "readdelay_us": rd, "before": "", "after": "", "poll": True})
+    # an Open that fails half way (read error in the middle of the hello / the login dialogue), then Close: nothing should be
+    # left behind. The property starts "after a successful open", so what is observed here is a note, not a verdict (it showed the
+    # reader goroutine of the NETCONF hello exchange being left behind, repaired with fix 795418f)
+    for drv in ("generic", "netconf"):
+        for closes in (1, 2):
+            for cb in ("eof", "err", "stay"):
+                for rd in ((40, 300) if thorough else (40,)):
+                    scns.append({"driver": drv, "state": "open-fails", "closes": closes, "closebeh": cb, "readdelay_us": rd, "before": "", "after": ""})
     # the built-in transports under the same contract (real telnet over loopback, standard SSH against the in-process server)
     for tr in ("telnet", "standard"):
         for st in ("idle", "inflight", "eof"):
@@ -286,6 +294,9 @@ def run(ctx):
             where = re.search(r"scrapligo/([\w/]+\.\(\*?\w+\)\.\w+)", st)
             ctx.violation("C07:%s:%s:closes=%d:%s:process-died:%s" % (sc["driver"], sc["state"], sc["closes"], sc["closebeh"], (m.group(1) if m else "?")[:60]),
                           "the process died during this scenario (%s):\n%s" % (where.group(1) if where else "", st[-1800:]), sc)
+        elif not r["ok"] and sc["state"] == "open-fails":
+            # outside the property (it speaks about a driver that was opened successfully): recorded, never a verdict
+            ctx.notes.setdefault("after_a_failed_open_outside_the_property", []).append({"scenario": sc, "observed": r["sig"]})
         elif not r["ok"]:
             ctx.violation(r["sig"], r["detail"], sc)
         elif r.get("extra", {}).get("forced"):
